@@ -60,3 +60,28 @@ pub proof fn lemma_fixed_kraft()
     assert(slots(m, 11) == 0); assert(slots(m, 12) == 0); assert(slots(m, 13) == 0); assert(slots(m, 14) == 0); assert(slots(m, 15) == 0); assert(slots(m, 16) == 0);
     assert(kraft_ok(m));
 }
+
+// ---- block sequences and whole streams ----
+/// the bits of a block sequence; every block but possibly the final one carries final-flag 0; a stored block is
+/// padded to the byte boundary its position in the stream implies
+pub open spec fn blocks_bits(bs: Seq<PreflateTokenBlock>, fin: bool) -> Seq<bool>
+    decreases bs.len()
+{
+    if bs.len() == 0 { Seq::<bool>::empty() } else {
+        let prev = blocks_bits(bs.drop_last(), false);
+        prev + block_bits(bs.last(), fin, ((8 - (prev.len() + 3) % 8) % 8) as nat)
+    }
+}
+pub open spec fn blocks_text(bs: Seq<PreflateTokenBlock>) -> Seq<u8>
+    decreases bs.len()
+{ if bs.len() == 0 { Seq::<u8>::empty() } else { block_text(blocks_text(bs.drop_last()), bs.last()) } }
+pub open spec fn blocks_fit(bs: Seq<PreflateTokenBlock>) -> bool
+    decreases bs.len()
+{ if bs.len() == 0 { true } else { blocks_fit(bs.drop_last()) && block_fits(blocks_text(bs.drop_last()), bs.last()) } }
+
+/// a whole DEFLATE stream (RFC 1951): blocks, the last one flagged final, then padding up to the byte boundary
+pub open spec fn stream_bits(bs: Seq<PreflateTokenBlock>, eof_padding: u8) -> Seq<bool> {
+    let b = blocks_bits(bs, true);
+    b + lsb_bits(eof_padding as nat, ((8 - b.len() % 8) % 8) as nat)
+}
+
